@@ -32,11 +32,13 @@ CLAIMS = {
     "C04": ("proof", "Lemma-level proof. Deletion propagation (one delete of the peer, entry tombstoned and discarded, never while a "
             "pending creation exists at the path) and child-path maintenance on folder rename are proved as function contracts. "
             "Exact merge of arbitrary non-conflicting histories is NOT proved.",
-            "Same contracts and assumptions as C02; handle_rename and the non-empty-folder wait are covered only through delete_synced's effect contract."),
+            "Same contracts and assumptions as C02; the non-empty-folder wait (_handle_dir_delete_not_empty) has its own lemma; handle_rename is not yet under contract."),
     "C05": ("proof", "Lemma-level proof of the conflict shortcut: in handle_split_conflict the deferred side's bytes are hashed with the "
             "other side's hash function and compared with its recorded hash; equal content is merged silently (no resolver call, no "
-            "provider write, duplicate entry discarded); the resolver path is taken at most once and only for different content. The "
-            "decision table of the resolver wrapper and the application of its answer are not yet under contract.",
+            "provider write, duplicate entry discarded); the resolver path is taken at most once and only for different content; "
+            "the resolver wrapper (__safe_call_resolver) returns exactly the table of the resolver's answer kinds (keep one, keep both, "
+            "merged handle, pending, exception) and sync() dispatches an entry to exactly one handler. The application of the "
+            "resolver's answer (resolve_conflict body, conflict_rename) is not yet under contract.",
             "resolve_conflict and download_changed are stubbed (arbitrary outcomes); the user's resolver is an arbitrary callable."),
     "C06": ("proof", "Lemma-level proof. In one event-intake step the cursor is persisted at most once, as the last effect, under the "
             "cursor tag, after every event of the batch was processed; a stopped manager processes no further event; each processed "
@@ -50,8 +52,9 @@ CLAIMS = {
             "pre_sync / sync are stubbed in the step lemma; crash semantics of the storage back end are assumed (SQLite autocommit)."),
     "C08": ("proof", "Lemma-level proof of the dirty discipline on the real bodies of SideState.__setattr__, SyncState.updated, "
             "_change_oid: after assigning an oid or a change flag every entry whose persisted fields changed -- including an entry "
-            "ousted from the oid -- is in the dirty set, and a sync step commits. The codec round trip and commit loop are not yet "
-            "under contract. One known finding (D6) on pending-set exactness.",
+            "ousted from the oid -- is in the dirty set, and a sync step commits. The entry codec (serialize / deserialize through a "
+            "structure-preserving msgpack model) round-trips every persisted field; the commit loop is not yet under contract. "
+            "One known finding (D6) on pending-set exactness.",
             "Indexes are open maps (touched bindings exact, rest arbitrary); entries found through an index are assumed to satisfy the index invariant."),
     "C09": ("proof", "Proof (sequential): create / update / delete / read of SqliteStorage against the abstract map (tag, id) -> bytes, "
             "stated over the whole table through a frame row: fresh id for every tag, exact bytes, update of a missing or foreign-tag "
@@ -63,7 +66,7 @@ CLAIMS = {
             "notification kind; a sync step lets a fault of any class escape only as a back-off request and defers the entry by one; "
             "the service loop survives every exception of the work function and waits min(max, max(b*mult, min)); pre_sync re-reads "
             "both sides even while in back-off; punting defers by a bounded amount. Convergence after the faults stop is NOT proved.",
-            "Provider API = arbitrary implementation raising any cloud exception; EventManager.do's classification is not yet under contract."),
+            "Provider API = arbitrary implementation raising any cloud exception; EventManager.do's fault classification (temporary / disconnected / rejected cursor -> reset + walk / token) is under contract with _do_unsafe as an arbitrary callee."),
     "C11": ("proof", "Proof for the core writers on their real bodies: assigning an oid keeps 'oid slot -> entry' and the pending set exact "
             "for the entry, never loses a pending change of an ousted entry, and marks every changed entry dirty; setting a change "
             "flag keeps the pending set exact (one known finding, D6, isolated as its own obligation); a path change records the path "
@@ -95,13 +98,15 @@ CLAIMS = {
     "C16": ("exploration", "Bounded stand-in only (no contract within reach of the verifier expresses 'behaves like a reference tree for "
             "any call sequence' for the dict-of-everything MockFS): operation sequences on four mock flavours and the filesystem "
             "provider against a reference tree and mutual consistency of info/listing/exists/download, documented error classes, id "
-            "stability, hash law for ten size classes (found D3, fixed), identity check on connect. Event stream not checked.",
+            "stability, hash law for ten size classes (found D3, fixed), identity check on connect, event stream of the mock (every id that "
+            "disappears or appears is announced).",
             "Exhaustive only up to the stated sequence length; one known finding (rename of a folder into itself on the mock)."),
     "C17": ("proof", "Proof of the function-level scheduling laws: change times strictly increase whatever the clock returns "
             "(mark_changed); punting raises priority by one and defers each set change flag by exactly default_sleep/10 only when the "
-            "priority becomes positive; a path change assigns the application's priority for the new path. Eligibility and ordering "
-            "inside SyncState.change are not yet under contract.",
-            "time.time() = arbitrary positive real; prioritize = arbitrary function."),
+            "priority becomes positive; a path change assigns the application's priority for the new path; SyncState.change hands out only "
+            "a member of the pending set that is eligible (negative priority, or a change flag at least `age` old) and nothing eligible "
+            "sorts strictly before it by (priority, newest change time); it does not come back empty while an eligible entry exists.",
+            "time.time() = arbitrary positive real; prioritize = arbitrary function; sorted() = contract (ordered permutation, prefix facts)."),
     "C18": ("proof", "Proof. Back-off formula by induction over the failure count (base and step over reals); every iteration of "
             "Runnable.run from an arbitrary loop state: no exception of the work function escapes, the wait is the back-off law "
             "(reset after a productive success, kept after a no-op), cleanup runs exactly once iff the stop was final, the service "
